@@ -238,6 +238,22 @@ func (x *Exec) evalIdent(ctx *SpecCtx, name string) Value {
 }
 
 // lookupLocal resolves a source-level variable name to its current SSA value in frame fr.
+// phiName is the source name of a loop variable: the phi's comment, or for "for i := range n"
+// (whose hidden counter is named rangeint.iter) the variable the counter is copied to.
+func phiName(v *ssa.Phi) string {
+	if v.Comment != "rangeint.iter" {
+		return v.Comment
+	}
+	if refs := v.Referrers(); refs != nil {
+		for _, r := range *refs {
+			if d, ok := r.(*ssa.DebugRef); ok && !d.IsAddr && d.Object() != nil {
+				return d.Object().Name()
+			}
+		}
+	}
+	return v.Comment
+}
+
 func (x *Exec) lookupLocal(st *State, fr *Frame, name string) (Value, bool) {
 	// 0. composite (struct/array) locals that live in memory are denoted by their address
 	for _, blk := range fr.fn.Blocks {
@@ -284,7 +300,7 @@ func (x *Exec) lookupLocal(st *State, fr *Frame, name string) (Value, bool) {
 		for i, in := range blk.Instrs {
 			switch v := in.(type) {
 			case *ssa.Phi:
-				if v.Comment == name {
+				if phiName(v) == name {
 					consider(v, blk, i)
 				}
 			case *ssa.DebugRef:
